@@ -587,6 +587,23 @@ def check(ctx):
     ctx.rule("C08.R7", "a check-only variant and the building variant it replaces invoke the same children in the same evaluation order (the first failing child decides the error reported for an item)", floor=3)
     order_rule(ctx)
 
+    # ---------------- R8: check_type and the numeric tower
+    ctx.rule("C08.R8", "check_type=True accepts what the annotation accepts: an int is a well-typed value for float (PEP 484, JSON numbers; the deserializer accepts integers for float), so the class checked for float includes int", floor=1)
+    sp = model.func("apischema.serialization.SerializationMethodVisitor.primitive")
+    ok8 = False
+    for n in walk_no_nested(sp.node):
+        if isinstance(n, ast.If) and "cls is float" in norm(n.test) and ("self.check_type" in norm(n.test) or True):
+            for c in ast.walk(n):
+                if isinstance(c, ast.Call) and (dotted(c.func) or "").split(".")[-1] in ("TypeCheckIdentityMethod", "TypeCheckMethod", "_wrap") and c.args:
+                    cl = [a for a in c.args if isinstance(a, ast.Tuple)]
+                    if cl and {"float", "int"} <= {norm(e) for e in cl[0].elts}:
+                        ok8 = True
+    fm = model.func(f"{DESER_MOD}.FloatMethod.deserialize")
+    deser_accepts_int = "int" in norm(fm.node)
+    ctx.check(ok8 or not deser_accepts_int, "C08.R8", f"{sp.qualname}:float", None,
+              "with check_type=True a float position is checked with isinstance(obj, float) alone: serialize(float, 1, check_type=True) raises TypeCheckError while serialize(float, 1) returns 1 (and deserialize(float, 1) accepts the integer)",
+              sp, sp.node, detail="expected class (float, int) for float")
+
 
 def eval_order(node):
     """child-method attributes invoked by a statement list, in Python evaluation order"""
@@ -648,6 +665,7 @@ def order_rule(ctx):
 
 
 def mutants(mb):
+    mb.add_text("check-type-float-exact", "apischema/serialization/__init__.py", "            return TypeCheckIdentityMethod((float, int), self._any_fallback(cls))\n", "            return TypeCheckIdentityMethod(float, self._any_fallback(cls))\n", "C08.R8", "float")
     mb.add_text("discriminator-key-written-in-place", "apischema/serialization/methods.py", "            res = {**res, self.alias: self.key}\n", "            res[self.alias] = self.key\n", "C08.R6", "DiscriminatedAlternative")
     D = "apischema/deserialization/__init__.py"
     S = "apischema/serialization/__init__.py"
